@@ -74,6 +74,11 @@ var impls = map[string]func(string) string{
 	"gcs.has":         implGcsHas,
 	"gcs.prune":       implGcsPrune,
 	"gcsindex.ops":    implGcsIndexOps,
+	"so.srv":          implSoSrv,
+	"so.glob":         implSoGlob,
+	"so.locmatch":     implSoLocMatch,
+	"so.store":        implSoStore,
+	"so.index":        implSoIndex,
 }
 
 type replayFile struct {
